@@ -2,6 +2,9 @@
 pub open spec fn in_extent(e: (u64, usize), b: int) -> bool {
     e.0 as int <= b < e.0 as int + e.1 as int
 }
+pub open spec fn ext_end(e: (u64, usize)) -> int {
+    e.0 as int + e.1 as int
+}
 pub open spec fn covered(s: Seq<(u64, usize)>, b: int) -> bool {
     exists|i: int| 0 <= i < s.len() && in_extent(#[trigger] s[i], b)
 }
@@ -18,4 +21,189 @@ pub fn fill_retirement_markers_prefix(s: &mut [u8], n: usize, sector: u64, remai
         markers_ok(final(s)@.subrange(0, n as int), sector, remaining, (n / 4096) as int),
 {
     unimplemented!()
+}
+
+// ---- the device log, abstracted: what kind of call, where, how many blocks (a failed call is `X`)
+pub enum Abs {
+    J(Seq<(u64, usize)>),
+    C,
+    W(u64, int),
+    F,
+    X,
+}
+pub open spec fn abs_ev(e: IoEvent) -> Abs {
+    match e {
+        IoEvent::Journal { extents, ok } => if ok { Abs::J(extents) } else { Abs::X },
+        IoEvent::Clear { ok } => if ok { Abs::C } else { Abs::X },
+        IoEvent::Write { sector, data, ok } => if ok && data.len() % 4096 == 0 { Abs::W(sector, data.len() as int / 4096) } else { Abs::X },
+        IoEvent::Flush { ok } => if ok { Abs::F } else { Abs::X },
+        IoEvent::Direct => Abs::X,
+    }
+}
+// the events after position `from`
+pub open spec fn tail(log: Seq<IoEvent>, from: int) -> Seq<Abs> {
+    log.skip(from).map_values(|e: IoEvent| abs_ev(e))
+}
+pub proof fn lemma_tail_push(log: Seq<IoEvent>, from: int, e: IoEvent)
+    requires 0 <= from <= log.len(),
+    ensures tail(log.push(e), from) == tail(log, from).push(abs_ev(e)),
+{
+    assert(log.push(e).skip(from) =~= log.skip(from).push(e));
+    assert(tail(log.push(e), from) =~= tail(log, from).push(abs_ev(e)));
+}
+pub proof fn lemma_tail_empty(log: Seq<IoEvent>)
+    ensures tail(log, log.len() as int) == Seq::<Abs>::empty(),
+{
+    assert(tail(log, log.len() as int) =~= Seq::<Abs>::empty());
+}
+// tail(log, a) == tail(log, a).take(b - a) + tail(log, b)
+pub proof fn lemma_tail_split(log: Seq<IoEvent>, a: int, b: int)
+    requires 0 <= a <= b <= log.len(),
+    ensures tail(log, a) == tail(log.take(b), a) + tail(log, b),
+{
+    assert(tail(log, a) =~= tail(log.take(b), a) + tail(log, b));
+}
+
+pub open spec fn min_int(a: int, b: int) -> int { if a <= b { a } else { b } }
+pub open spec fn nchunks(n: int) -> int { (n + 255) / 256 }
+// the marker writes of one extent: chunk j covers blocks [s + 256 j, s + 256 j + min(256, n - 256 j))
+pub open spec fn chunks(s: u64, n: int, c: int) -> Seq<Abs>
+    decreases c,
+{
+    if c <= 0 { Seq::<Abs>::empty() } else { chunks(s, n, c - 1).push(Abs::W((s + 256 * (c - 1)) as u64, min_int(256, n - 256 * (c - 1)))) }
+}
+// the marker writes of the first k extents, in order
+pub open spec fn ext_writes(ex: Seq<(u64, usize)>, k: int) -> Seq<Abs>
+    decreases k,
+{
+    if k <= 0 { Seq::<Abs>::empty() } else { ext_writes(ex, k - 1) + chunks(ex[k - 1].0, ex[k - 1].1 as int, nchunks(ex[k - 1].1 as int)) }
+}
+// one journaled retirement transaction for the extents `ex`: intent, markers of every extent, fsync, clear
+pub open spec fn transaction(ex: Seq<(u64, usize)>) -> Seq<Abs> {
+    seq![Abs::J(ex)] + ext_writes(ex, ex.len() as int) + seq![Abs::F, Abs::C]
+}
+// the transactions for the first `done` entries of `co`, 1024 entries per transaction
+pub open spec fn transactions(co: Seq<(u64, usize)>, done: int) -> Seq<Abs>
+    decreases done,
+{
+    if done <= 0 { Seq::<Abs>::empty() } else {
+        let start = ((done - 1) / 1024) * 1024;
+        transactions(co, start) + transaction(co.subrange(start, done))
+    }
+}
+
+// what coalesce_extents returns for `ex`: ascending, separated runs covering exactly the blocks of `ex`
+pub open spec fn coalesced_of(c: Seq<(u64, usize)>, ex: Seq<(u64, usize)>) -> bool {
+    &&& forall|i: int| 0 <= i < c.len() ==> (#[trigger] c[i]).1 >= 1 && ext_end(c[i]) <= u64::MAX
+    &&& forall|i: int, j: int| 0 <= i < j < c.len() ==> ext_end(#[trigger] c[i]) < (#[trigger] c[j]).0
+    &&& forall|b: int| covered(c, b) <==> covered(ex, b)
+}
+pub open spec fn no_clear_after(log: Seq<IoEvent>, from: int) -> bool {
+    forall|k: int| from <= k < log.len() ==> !(#[trigger] log[k] matches IoEvent::Clear { ok } && ok)
+}
+
+pub proof fn lemma_covered_push(s: Seq<(u64, usize)>, e: (u64, usize), b: int)
+    ensures covered(s.push(e), b) <==> (covered(s, b) || in_extent(e, b)),
+{
+    if covered(s.push(e), b) {
+        let i = choose|i: int| 0 <= i < s.push(e).len() && in_extent(#[trigger] s.push(e)[i], b);
+        if i < s.len() {
+            assert(s[i] == s.push(e)[i]);
+        }
+    }
+    if covered(s, b) {
+        let i = choose|i: int| 0 <= i < s.len() && in_extent(#[trigger] s[i], b);
+        assert(s.push(e)[i] == s[i]);
+    }
+    if in_extent(e, b) {
+        assert(s.push(e)[s.len() as int] == e);
+    }
+}
+pub proof fn lemma_covered_take_next(o: Seq<(u64, usize)>, k: int, b: int)
+    requires 0 <= k < o.len(),
+    ensures covered(o.take(k + 1), b) <==> (covered(o.take(k), b) || in_extent(o[k], b)),
+{
+    assert(o.take(k + 1) =~= o.take(k).push(o[k]));
+    lemma_covered_push(o.take(k), o[k], b);
+}
+// replacing the last run by one that covers the old last run plus an adjacent extent
+pub proof fn lemma_covered_merge_last(s: Seq<(u64, usize)>, add: (u64, usize), merged: (u64, usize), b: int)
+    requires
+        s.len() > 0,
+        merged.0 == s.last().0,
+        add.0 as int == ext_end(s.last()),
+        ext_end(merged) == ext_end(add),
+        add.1 >= 1,
+    ensures covered(s.update(s.len() - 1, merged), b) <==> (covered(s, b) || in_extent(add, b)),
+{
+    let t = s.update(s.len() - 1, merged);
+    let l = s.len() - 1;
+    if covered(t, b) {
+        let i = choose|i: int| 0 <= i < t.len() && in_extent(#[trigger] t[i], b);
+        if i < l {
+            assert(s[i] == t[i]);
+        } else {
+            assert(t[l] == merged);
+            if b < ext_end(s.last()) {
+                assert(in_extent(s[l], b));
+            }
+        }
+    }
+    if covered(s, b) {
+        let i = choose|i: int| 0 <= i < s.len() && in_extent(#[trigger] s[i], b);
+        if i < l {
+            assert(t[i] == s[i]);
+        } else {
+            assert(in_extent(t[l], b));
+        }
+    }
+    if in_extent(add, b) {
+        assert(in_extent(t[l], b));
+    }
+}
+pub proof fn lemma_covered_perm(r: Seq<(u64, usize)>, ex: Seq<(u64, usize)>, b: int)
+    requires forall|x: (u64, usize)| r.contains(x) <==> ex.contains(x),
+    ensures covered(r, b) <==> covered(ex, b),
+{
+    if covered(r, b) {
+        let i = choose|i: int| 0 <= i < r.len() && in_extent(#[trigger] r[i], b);
+        assert(r.contains(r[i]));
+        let j = choose|j: int| 0 <= j < ex.len() && ex[j] == r[i];
+        assert(in_extent(ex[j], b));
+    }
+    if covered(ex, b) {
+        let i = choose|i: int| 0 <= i < ex.len() && in_extent(#[trigger] ex[i], b);
+        assert(ex.contains(ex[i]));
+        let j = choose|j: int| 0 <= j < r.len() && r[j] == ex[i];
+        assert(in_extent(r[j], b));
+    }
+}
+
+// b continues a: same events at the same positions, possibly more after them
+pub open spec fn extends(a: Seq<IoEvent>, b: Seq<IoEvent>) -> bool {
+    a.len() <= b.len() && forall|k: int| 0 <= k < a.len() ==> #[trigger] b[k] == a[k]
+}
+
+// one iteration of retire_extents: the log grew by exactly one transaction for the chunk co[start..done]
+pub proof fn lemma_retire_step(l0: Seq<IoEvent>, l1: Seq<IoEvent>, l2: Seq<IoEvent>, l3: Seq<IoEvent>, n0: int, co: Seq<(u64, usize)>, start: int, done: int)
+    requires
+        0 <= n0 <= l0.len(),
+        0 <= start < done <= co.len(),
+        ((done - 1) / 1024) * 1024 == start,
+        tail(l0, n0) == transactions(co, start),
+        l1 == l0.push(IoEvent::Journal { extents: co.subrange(start, done), ok: true }),
+        extends(l1, l2),
+        tail(l2, l1.len() as int) == ext_writes(co.subrange(start, done), done - start).push(Abs::F),
+        l3 == l2.push(IoEvent::Clear { ok: true }),
+    ensures
+        tail(l3, n0) == transactions(co, done),
+{
+    let chunk = co.subrange(start, done);
+    lemma_tail_push(l0, n0, IoEvent::Journal { extents: chunk, ok: true });
+    lemma_tail_split(l2, n0, l1.len() as int);
+    assert(l2.take(l1.len() as int) =~= l1);
+    lemma_tail_push(l2, n0, IoEvent::Clear { ok: true });
+    assert(chunk.len() == done - start);
+    assert(transaction(chunk) =~= seq![Abs::J(chunk)] + ext_writes(chunk, done - start) + seq![Abs::F, Abs::C]);
+    assert(tail(l3, n0) =~= transactions(co, start) + transaction(chunk));
 }
